@@ -53,9 +53,11 @@ ZONES = {'UTC': 0, 'Etc/GMT-7': 7 * 3600, 'Etc/GMT+3': -3 * 3600, 'Etc/GMT-12': 
 
 
 def gen(rng):
-    rstep = rng.choice([600, 900, 1200, 1800, 3600])
+    rstep = rng.choice([600, 900, 1200, 1800, 3600, 600, 900, 1200, 1800, 3600, 60, 3900, 86400])
     zstep = rng.choice([rstep, rstep, rstep, 300, 600, 1200, 1800, 3600, 900])
     n = rng.randint(3, 40) if rng.random() < 0.9 else rng.randint(40, 400)
+    if rng.random() < 0.004:
+        n = rng.randint(3000, 15000)  # thousands of rows (chunked inserts, batch sizes)
     r0 = rng.randint(-5, 5) * rstep
     rain_t = [r0 + i * rstep for i in range(n)]
     z0 = r0 + rng.choice([0, 0, rstep, -rstep, -3 * rstep, rng.randint(-3, 3) * 300, rng.randint(0, n // 2) * rstep, rng.randint(1, 59) * 60])
